@@ -469,3 +469,109 @@ Proof.
   - intros j Hj. apply Hp. rewrite p2_to_nat. exact Hj.
   - cbn [pow] in Hn. rewrite Rmult_1_r in Hn. exact Hn.
 Qed.
+
+(** ** sessions: every interpreter reachable through the incremental interfaces *)
+Open Scope N_scope.
+
+Lemma ext_ok_append M (a b : @extop R) : ext_ok M a -> ext_ok M b -> ext_ok M (ext_append a b).
+Proof.
+  intros [A1 A2] [B1 B2]. split; cbn [ext_append blocks open]; [|exact B2].
+  apply Forall_app. split; [|exact B1].
+  destruct (open a) as [|g0 g] eqn:E; [exact A1|].
+  destruct (rev (blocks a)) as [|[last s] before] eqn:Er.
+  - apply Forall_app. split; [exact A1|]. constructor; [exact A2|constructor].
+  - assert (Hr : Forall (fun b0 => okq M (fst b0)) (rev (blocks a))) by (apply Forall_rev; exact A1).
+    rewrite Er in Hr. inversion Hr as [|x xs Hlast Hbefore]; subst. cbn [fst] in Hlast.
+    destruct s.
+    + apply Forall_app. split; [apply Forall_rev; exact Hbefore|]. constructor; [|constructor]. cbn [fst].
+      apply okq_app; assumption.
+    + apply Forall_app. split; [exact A1|]. constructor; [exact A2|constructor].
+    + apply Forall_app. split; [exact A1|]. constructor; [exact A2|constructor].
+    + apply Forall_app. split; [exact A1|]. constructor; [exact A2|constructor].
+Qed.
+
+Definition session_ok (i : @int R) : Prop := ext_ok (N.ones (lenN (i_qreg i))) (i_ops i).
+(** a set of pending changes computed against [base] *)
+Definition changes_ok (base ch : @int R) : Prop := ext_ok (Mof base ch) (i_ops ch).
+
+Inductive session : @int R -> Prop :=
+| S_empty : session int_empty
+| S_add i ast i' : session i -> add_ast Rops i ast = (IOk tt, i') -> session i'
+| S_append i ch : session i -> changes i ch -> session (append_int i ch)
+| S_xor i : session i -> session (int_xor i)
+with changes : @int R -> @int R -> Prop :=
+| C_empty i : session i -> changes i int_empty
+| C_more i ch ast ch' : changes i ch -> ast_changes Rops i ch ast = IOk ch' -> changes i ch'.
+
+Lemma Mof_empty_l ch : Mof int_empty ch = N.ones (lenN (i_qreg ch)).
+Proof. reflexivity. Qed.
+
+Lemma changes_step i ch ast ch' : changes_ok i ch -> ast_changes Rops i ch ast = IOk ch' -> changes_ok i ch'.
+Proof.
+  unfold ast_changes. intros Hok H.
+  destruct (process_nodes Rops i ch ast) as [c1| |] eqn:E; cbn [ibind] in H; try discriminate.
+  injection H as <-. unfold changes_ok, Mof. cbn [push_ast i_qreg i_ops].
+  exact (process_nodes_ok _ _ _ _ Hok E).
+Qed.
+
+Scheme session_ind2 := Induction for session Sort Prop
+  with changes_ind2 := Induction for changes Sort Prop.
+
+Lemma session_changes_ok :
+  (forall i, session i -> session_ok i) /\ (forall i ch, changes i ch -> session_ok i /\ changes_ok i ch).
+Proof.
+  assert (H : forall i (s : session i), session_ok i)
+    by (apply (session_ind2 (fun i _ => session_ok i) (fun i ch _ => session_ok i /\ changes_ok i ch));
+        [ split; [constructor|apply okq_nil]
+        | intros i ast i' _ Hi Hadd; unfold add_ast in Hadd;
+          destruct (ast_changes Rops int_empty i ast) as [i2| |] eqn:E; try discriminate;
+          injection Hadd as <-; unfold session_ok; rewrite <- Mof_empty_l;
+          apply (changes_step int_empty i ast i2); [unfold changes_ok; rewrite Mof_empty_l; exact Hi|exact E]
+        | intros i ch _ Hi _ [_ Hch]; unfold session_ok; cbn [append_int i_qreg i_ops];
+          apply ext_ok_append; [eapply ext_ok_mono; [|exact Hi]; apply inside_ones_le; rewrite lenN_app; lia|exact Hch]
+        | intros i _ Hi; exact Hi
+        | intros i _ Hi; split; [exact Hi|split; [constructor|apply okq_nil]]
+        | intros i ch ast ch' _ [Hi Hch] E; split; [exact Hi|exact (changes_step i ch ast ch' Hch E)] ]).
+  split; [exact H|].
+  intros i ch Hc. induction Hc as [i Hs|i ch ast ch' Hc [IH1 IH2] E].
+  - split; [apply H; exact Hs|split; [constructor|apply okq_nil]].
+  - split; [exact IH1|exact (changes_step i ch ast ch' IH2 E)].
+Qed.
+
+Open Scope R_scope.
+
+(** the final register of any run of any session *)
+Definition C05_session_stmt : Prop :=
+  forall (i : @int R), session i ->
+  forall (draws : list N) (s' : @sym R),
+    sym_finish Rops E15 E9 (sym_new Rops i) draws = Some s' ->
+    let r := s_q s' in
+    shaped r /\ q_num r = lenN (i_qreg i) /\
+    (forall j, (2 ^ q_num r <= j)%N -> get Rops (q_psi r) j = c0 Rops) /\
+    1 - E9 <= norm r <= 1.
+
+Lemma run_valid (i : @int R) : session_ok i ->
+  forall (draws : list N) (s' : @sym R),
+    sym_finish Rops E15 E9 (sym_new Rops i) draws = Some s' ->
+    let r := s_q s' in
+    shaped r /\ q_num r = lenN (i_qreg i) /\
+    (forall j, (2 ^ q_num r <= j)%N -> get Rops (q_psi r) j = c0 Rops) /\
+    1 - E9 <= norm r <= 1.
+Proof.
+  intros [Hb Ho] draws s' Hf r.
+  unfold sym_finish in Hf. cbn [sym_new s_xor s_q s_c s_ops] in Hf.
+  destruct (run_blocks Rops E15 E9 (i_xor i) (reg_new Rops (lenN (i_qreg i))) (creg_new (lenN (i_creg i))) (blocks (i_ops i)) draws)
+    as [[[r1 c1] rest]|] eqn:Er; [|discriminate].
+  injection Hf as <-. cbn [s_q] in r.
+  assert (H0 : InvK 1 (reg_new Rops (lenN (i_qreg i)))) by (apply InvK_of_Inv; [apply with_state_inv|apply padz_with_state]).
+  destruct (run_blocks_inv 1 (N.ones (lenN (i_qreg i))) (le_n 1) _ _ _ _ _ _ _ _ H0 eq_refl Hb Er) as [HI1 [HM1 HN1]].
+  assert (HI : InvK 1 r).
+  { apply (stepK 1 r1 (Apply (open (i_ops i))) (le_n 1) HI1). apply (okq_adm (N.ones (lenN (i_qreg i)))); assumption. }
+  destruct HI as [Hs [Hp Hn]]. split; [exact Hs|]. split; [|split].
+  - unfold r. cbn [apply_block reg_apply q_num]. exact HN1.
+  - intros j Hj. apply Hp. rewrite p2_to_nat. exact Hj.
+  - cbn [pow] in Hn. rewrite Rmult_1_r in Hn. exact Hn.
+Qed.
+
+Lemma C05_session_proof : C05_session_stmt.
+Proof. intros i Hs. apply run_valid. exact (proj1 session_changes_ok i Hs). Qed.
